@@ -86,7 +86,7 @@ func (e *Exec) execInstr(ins ssa.Instruction, st *State) {
 			e.errorf("store through %T", e.val(x.Addr))
 		}
 		e.safe("nil", st, Ne(p.Addr, ConstI(0, Ref)), x.Pos())
-		e.storeHook(p, st)
+		e.guardedAccess(p, st, x.Pos(), "write")
 		e.storeAt(st, p, e.val(x.Val))
 	case *ssa.TypeAssert:
 		e.vals[x] = e.typeAssert(x, st)
@@ -375,6 +375,7 @@ func (e *Exec) unop(x *ssa.UnOp, st *State) Value {
 			e.errorf("load through %T", v)
 		}
 		e.safe("nil", st, Ne(p.Addr, ConstI(0, Ref)), x.Pos())
+		e.guardedAccess(p, st, x.Pos(), "read")
 		return e.loadAt(st, p)
 	case token.NOT:
 		return Scalar{Not(e.scalarOf(v))}
